@@ -1986,20 +1986,33 @@ struct HistBase : Task
             for (unsigned x = 0; x < 65536; ++x) tab[e][x] = h_call(es[e], u16(x));
         ready = true;
     }
-    // compare one result with the isolated sweep; on a difference ask the independent reference
-    void check(int ei, u16 arg, uint64_t r, const std::string& sigmid, const std::string& context, const std::vector<std::string>& rp)
+    // compare one result with the isolated sweep; on a difference ask the independent reference.  Returns the failure kind ("" = fine).
+    std::string differs(int ei, u16 arg, uint64_t r, std::string& want)
     {
-        if (r == tab[ei][arg]) return;
+        if (r == tab[ei][arg]) return std::string();
         g_sh3->cnt[H_DIFF]++;
-        std::string want;
         std::string kind = h_judge(es[ei], arg, r, want);
-        if (kind.empty()) { g_sh3->cnt[H_DIFF_OK]++; return; }
+        if (kind.empty()) g_sh3->cnt[H_DIFF_OK]++;
+        return kind;
+    }
+    void report(int ei, u16 arg, uint64_t r, const std::string& kind, const std::string& want, const std::string& sigmid, const std::string& context, const std::vector<std::string>& rp)
+    {
         cnt(C_VIOL);
         vf::violation(sigroot() + "history:" + es[ei].name + "/" + sigmid + "/" + cls(arg) + "/" + kind,
                       es[ei].name + " on " + hx(arg) + " returned " + h_show(es[ei], r) + " " + context + "; in an argument sweep of " + es[ei].name +
                           " alone the same call returns " + h_show(es[ei], tab[ei][arg]) + "; " + want + ". The result of a call must not depend on the calls made before it",
                       rp);
     }
+    // the two-call history f(farg), g(garg) in a newly created thread (initial state of all thread_local data); returns g's result
+    uint64_t pair_in_fresh_thread(int fi, u16 farg, int gi, u16 garg)
+    {
+        uint64_t r = 0;
+        const HEntry &f = es[fi], &g = es[gi];
+        std::thread t([&r, &f, &g, farg, garg] { (void)h_call(f, farg); r = h_call(g, garg); });
+        t.join();
+        return r;
+    }
+    int find(const std::string& n) const { for (size_t i = 0; i < es.size(); ++i) if (es[i].name == n) return int(i); return -1; }
 };
 
 struct HistWalkTask : HistBase
@@ -2026,16 +2039,50 @@ struct HistWalkTask : HistBase
                     cnt(C_EVAL);
                     if (r != tab[ei][arg])
                     {
-                        std::string after = prev < 0 ? std::string("start-of-walk") : "after-" + es[prev].name;
-                        std::string ctx = prev < 0 ? std::string("as the first call of the walk on this argument")
-                                                   : "when called right after " + es[prev].name + " on " + hx(prevarg) + " (relation '" + rel.name + "', walk on " + hexs(x) + ", lap " + vf::str(lap) + " step " + vf::str(j) + ")";
-                        check(ei, arg, r, after + "," + rel.name, ctx, {"--history", "one", set, rel.name, hexs(x), vf::str(lo)});
+                        std::string want, kind = differs(ei, arg, r, want);
+                        if (!kind.empty()) blame(x, p, lap, j, ei, arg, r, prev, prevarg, kind, want);
                     }
                     if (g_verbose && r != tab[ei][arg]) std::printf("walk %s step %zu: %s(%s) = %s, isolated %s\n", hexs(x).c_str(), j, es[ei].name.c_str(), hx(arg).c_str(), h_show(es[ei], r).c_str(), h_show(es[ei], tab[ei][arg]).c_str());
                 }
                 prev = ei;
                 prevarg = arg;
             }
+    }
+    // A violating call was found at a step of the walk.  The state that made it fail may have been left by ANY earlier call of the walk,
+    // not necessarily by the immediate predecessor, so the history is minimised inside the enumerated space before it is reported: the
+    // two-call histories f(a), g(arg) for every entry point f and a in {arg, the partner argument} are run in a newly created thread
+    // (immediate predecessor first, then culprits found earlier, then all); the first one that reproduces the failing result names
+    // the signature and is the replay.  If none does, the walk itself is the replay ("after-longer-history").
+    std::vector<std::pair<int, int>> memo;     // (f, 0 same argument / 1 the other argument) that reproduced before
+    int budget = 60;                           // full searches per process
+    std::string relname(bool same_arg, u16 arg, u16 x) const { return same_arg ? "same" : (arg == x || rel.laps == 1) ? rel.name : rel.name + "-inverse"; }
+    void blame(u16 x, u16 p, int lap, size_t j, int ei, u16 arg, uint64_t r, int prev, u16 prevarg, const std::string& kind, const std::string& want)
+    {
+        u16 other = arg == x ? p : x;
+        std::vector<std::pair<int, int>> cand;
+        if (prev >= 0) cand.push_back(std::make_pair(prev, prevarg == arg ? 0 : 1));
+        for (auto& m : memo) cand.push_back(m);
+        size_t cheap = cand.size();
+        if (budget > 0)
+            for (size_t f = 0; f < es.size(); ++f) { cand.push_back(std::make_pair(int(f), 0)); if (other != arg) cand.push_back(std::make_pair(int(f), 1)); }
+        for (size_t c = 0; c < cand.size(); ++c)
+        {
+            if (c == cheap) --budget;
+            int fi = cand[c].first;
+            u16 farg = cand[c].second ? other : arg;
+            if (cand[c].second && other == arg) continue;
+            uint64_t r2 = pair_in_fresh_thread(fi, farg, ei, arg);
+            if (r2 != r) continue;
+            if (std::find(memo.begin(), memo.end(), cand[c]) == memo.end()) memo.push_back(cand[c]);
+            std::string mid = "after-" + es[fi].name + "," + relname(farg == arg, arg, x);
+            report(ei, arg, r, kind, want, mid, "when called right after " + es[fi].name + " on " + hx(farg) + " (two-call history in a newly created thread; found in the walk of all entry points on " + hexs(x) + ", relation '" + rel.name + "')",
+                   {"--history", "pair", set, es[fi].name, hexs(farg), es[ei].name, hexs(arg), mid});
+            return;
+        }
+        std::string ctx = prev < 0 ? std::string("as the first call of the walk on this argument")
+                                   : "in the walk of all entry points on " + hexs(x) + " (relation '" + rel.name + "', lap " + vf::str(lap) + " step " + vf::str(j) + "), the call before it being " + es[prev].name + " on " + hx(prevarg) +
+                                         "; no two-call history reproduces it";
+        report(ei, arg, r, kind, want, "after-longer-history," + rel.name, ctx, {"--history", "one", set, rel.name, hexs(x), vf::str(lo)});
     }
     void run(unsigned long long i) override
     {
@@ -2071,7 +2118,8 @@ struct HistFreshTask : HistBase
         t.join();
         g_sh3->cnt[H_FRESH]++;
         cnt(C_EVAL);
-        check(ei, x, r, "first-call-in-fresh-thread", "as the first library call of a newly created thread", {"--history", "fresh1", set, e.name, hexs(x)});
+        std::string want, kind = differs(ei, x, r, want);
+        if (!kind.empty()) report(ei, x, r, kind, want, "first-call-in-fresh-thread", "as the first library call of a newly created thread", {"--history", "fresh1", set, e.name, hexs(x)});
         g_sh->phase = 0;
     }
     std::string describe(unsigned long long i, std::vector<std::string>& rp, std::string& sb) override
@@ -2081,6 +2129,34 @@ struct HistFreshTask : HistBase
         rp = {"--history", "fresh1", set, es[ei].name, hexs(x)};
         sb = sigroot() + "history:" + es[ei].name + "/first-call-in-fresh-thread/" + cls(x);
         return es[ei].name + " on " + hx(x) + " as the first call of a new thread";
+    }
+};
+
+struct HistPairTask : HistBase
+{
+    int fi, gi;
+    u16 farg, garg;
+    std::string mid;
+    unsigned long long size() const override { return 1; }
+    void run(unsigned long long) override
+    {
+        tables();
+        g_sh->phase = 1;
+        uint64_t r = pair_in_fresh_thread(fi, farg, gi, garg);
+        cnt(C_EVAL);
+        std::string want, kind = differs(gi, garg, r, want);
+        std::printf("%s on %s right after %s on %s (new thread) = %s, isolated sweep %s: %s\n", es[gi].name.c_str(), hx(garg).c_str(), es[fi].name.c_str(), hx(farg).c_str(), h_show(es[gi], r).c_str(),
+                    h_show(es[gi], tab[gi][garg]).c_str(), kind.empty() ? "ok" : kind.c_str());
+        if (!kind.empty())
+            report(gi, garg, r, kind, want, mid, "when called right after " + es[fi].name + " on " + hx(farg) + " (two-call history in a newly created thread)",
+                   {"--history", "pair", set, es[fi].name, hexs(farg), es[gi].name, hexs(garg), mid});
+        g_sh->phase = 0;
+    }
+    std::string describe(unsigned long long, std::vector<std::string>& rp, std::string& sb) override
+    {
+        rp = {"--history", "pair", set, es[fi].name, hexs(farg), es[gi].name, hexs(garg), mid};
+        sb = sigroot() + "history:" + es[gi].name + "/" + mid + "/" + cls(garg);
+        return es[fi].name + " on " + hx(farg) + " then " + es[gi].name + " on " + hx(garg);
     }
 };
 
@@ -2301,7 +2377,7 @@ int main(int argc, char** argv)
         else return 3;
         label = "nexttoward/" + what + (what == "halves" ? "-" + a.at(2) : std::string());
     }
-    else if (a[0] == "--history")          // --history walk <set> <relation> <lo> <hi> | fresh <set> alpha2|full <shard> <n> | one <set> <relation> <x> <lo> | fresh1 <set> <entry> <x> | list <set>
+    else if (a[0] == "--history")          // --history walk <set> <relation> <lo> <hi> | fresh <set> alpha1|alpha2|full <shard> <n> | one <set> <relation> <x> <lo> | pair <set> <f> <farg> <g> <garg> <sigmid> | fresh1 <set> <entry> <x> | list <set>
     {
         const std::string& what = a.at(1);
         if (what == "list")
@@ -2334,7 +2410,20 @@ int main(int argc, char** argv)
             if (what == "walk" && t.lo == 0)
                 vf::note("history walk, entry set '" + t.set + "': " + vf::str(t.es.size()) + " entry points, all " + vf::str(t.es.size() * t.es.size()) +
                          " ordered pairs (f, g) as consecutive calls of an Eulerian circuit (" + vf::str(t.circ.size()) + " calls per lap and argument)");
-            if (what == "walk") { label = "history/walk-" + t.set + "-" + t.rel.name; vf::stat("history_ordered_function_pairs:" + t.set + "," + t.rel.name + (flavour().empty() ? "" : "," + flavour()), (long long)(t.es.size() * t.es.size()) * (t.lo == 0 ? 1 : 0)); }
+            if (what == "walk") label = "history/walk-" + t.set + "-" + t.rel.name;
+            if (what == "walk" && t.lo == 0) vf::stat("history_ordered_function_pairs:" + t.set + "," + t.rel.name + (flavour().empty() ? "" : "," + flavour()), (long long)(t.es.size() * t.es.size()));
+        }
+        else if (what == "pair")               // --history pair <set> <f> <farg> <g> <garg> <signature middle>
+        {
+            HistPairTask t;
+            t.init(a.at(2));
+            t.fi = t.find(a.at(3));
+            t.gi = t.find(a.at(5));
+            if (t.fi < 0 || t.gi < 0) return 3;
+            t.farg = u16(std::strtoul(a.at(4).c_str(), nullptr, 16));
+            t.garg = u16(std::strtoul(a.at(6).c_str(), nullptr, 16));
+            t.mid = a.at(7);
+            sweep(t);
         }
         else if (what == "fresh" || what == "fresh1")
         {
@@ -2345,7 +2434,7 @@ int main(int argc, char** argv)
                 unsigned shard = unsigned(std::atoi(a.at(4).c_str())), ns = unsigned(std::atoi(a.at(5).c_str()));
                 std::vector<u16> all;
                 if (a.at(3) == "full") { for (unsigned x = 0; x < 65536; ++x) all.push_back(u16(x)); }
-                else all = alphabet(2);
+                else all = alphabet(a.at(3) == "alpha1" ? 1 : 2);
                 size_t lo = all.size() * shard / ns, hi = all.size() * (shard + 1) / ns;
                 t.xs.assign(all.begin() + lo, all.begin() + hi);
                 label = "history/fresh-thread-" + t.set + "-" + a.at(3);
